@@ -983,8 +983,11 @@ func (r *Runner) ensureStorage() error {
 	if r.Runstackpos < r.runtrackcount*4 {
 		doubleIntSlice(&r.runstack, &r.Runstackpos)
 	}
-	if r.Runtrackpos < r.runtrackcount*4 && !r.growTrack() {
-		return ErrBacktrackingStackLimit
+	if r.Runtrackpos < r.runtrackcount*4 {
+		// a growth capped by MaxBacktrackingStackSize may still leave too little room
+		if !r.growTrack() || r.Runtrackpos < r.runtrackcount*4 {
+			return ErrBacktrackingStackLimit
+		}
 	}
 	return nil
 }
